@@ -149,7 +149,7 @@ Fixpoint bq_walk (fuel : nat) (nx : list ptr) (dn : ptr) (req stop q : ptr) : li
 Definition build_queue (s : st) (stop : ptr) : st :=
   let '(nx, dn, q) := bq_walk (length (tasks s) + 2) (next s) (dnext s) (requests s) stop (queue s) in
   let s1 := s_mem s PDoor q nx dn in
-  s_ghost s1 (owner s1) [] (gqueue s1 ++ rev (gstack s1)) (alog s1) (glog s1).
+  s_ghost s1 (owner s1) [] (rev (gstack s1) ++ gqueue s1) (alog s1) (glog s1).
 
 (* ---- the hand-over part of unlock (mutex.h:170-176) executed by task c on thread t, plus what the
    release flavour does with the suspend point returned by awaiter::resume() ---- *)
@@ -230,7 +230,7 @@ Definition tstep (s : st) (t : nat) : st * Z * nat :=
           | _ =>
               let s2 := s_ghost s1 (owner s1) (c :: gstack s1) (gqueue s1) (alog s1 ++ [c]) (glog s1) in
               match tk x with
-              | KPlain => (set_pc s2 c PPubW, 21, c)
+              | KPlain => (set_task s2 c (t_pc (t_flag x false) PPubW), 21, c)   (* fresh sync_awaiter: flag = false, awaiter.h:320 *)
               | KCoro => (set_run (set_pc s2 c PParked) t (TSusp c), 21, c)
               end
           end
